@@ -34,6 +34,28 @@ class RegBench:
             if as_int != il:
                 chk.violation(f"require_user_verification={p2.require_uv} / require_user_presence={p2.require_up} give another outcome than the booleans ({label}): {as_int[:50]} instead of {il[:50]}",
                               f"policy-as-int reg {label.split('+')[0].split('/')[0]}", dict(rp, policy_as_int={"require_user_verification": p2.require_uv, "require_user_presence": p2.require_up}, outcome_as_int=as_int[:400]))
+        # the same ceremony with the attestation object in another encoding CBOR allows for the same value (member order, indefinite lengths, wider length fields):
+        # accepted stays accepted, refused stays refused
+        if scn is not None and "ao_style" not in scn.k and getattr(reg, "att_obj", None) is not None and reg.typ == "public-key":
+            from harness import cborgen, regsim as _regsim
+            import cbor2 as _cbor2
+            self._style_n = getattr(self, "_style_n", 0) + 1
+            style = cborgen.AO_STYLES[1 + self._style_n % (len(cborgen.AO_STYLES) - 1)]
+            try:
+                ao_val = _cbor2.loads(reg.att_obj)
+                styled = cborgen.encode_styled(ao_val, style) if isinstance(ao_val, dict) and _cbor2.dumps(ao_val) == reg.att_obj else None
+            except Exception:
+                styled = None
+            if styled is not None:
+                reg2 = _regsim.Registration(reg.cred, reg.cred_id, reg.cdj, styled, id_text=reg.id_text, typ=reg.typ)
+                for a_ in ("attachment", "client_ext", "extra_response_members", "transports"):
+                    if hasattr(reg, a_):
+                        setattr(reg2, a_, getattr(reg, a_))
+                o2 = impl.verify_reg(pol, reg2.as_dict())
+                chk.evals += 1
+                if o2.startswith("OK") != il.startswith("OK"):
+                    chk.violation(f"the same registration with its attestation object encoded differently ({style}) is {'accepted' if o2.startswith('OK') else 'refused'} instead of {'accepted' if il.startswith('OK') else 'refused'} ({label})",
+                                  f"attestation-object-encoding {style} {label.split('+')[0].split('/')[0]}", dict(rp, encoding=style, attestation_object_hex=styled.hex()[:2000], outcome=o2[:300]))
         if again != il:
             chk.violation(f"the same call repeated gives another outcome ({label}): {il[:50]} then {again[:50]}", f"repeat-call reg {label.split('+')[0].split('/')[0]}", dict(rp, second_outcome=again[:400]))
         if self.R:
